@@ -91,31 +91,28 @@ inductive SOp (Req : Type)
 def sendRequest (cl : Client) : Except CErr Client :=
   if cl.reqDone then .error .protocol else .ok { cl with reqDone := true }
 
-def upPush {Req : Type} (u : Up Req) (m : Req) (e : Bool) : Except CErr (Up Req) :=
-  if u.ended then .error .closed else .ok ⟨u.msgs ++ [m], e⟩
-
-def upEnd {Req : Type} (u : Up Req) : Except CErr (Up Req) :=
-  if u.ended then .error .closed else .ok { u with ended := true }
-
-/-- `Stream.send_message(m, end=e)` / `Stream.end()` of grpclib.client -/
-def sendOp {Req : Type} (cl : Client) (u : Up Req) : SOp Req → Except CErr (Client × Up Req)
+/-- what `Stream.send_message(m, end=e)` / `Stream.end()` of grpclib.client do, given whether END_STREAM has gone
+    out already: the new flags, the messages put on the wire, the new END_STREAM flag -/
+def sendEff {Req : Type} (cl : Client) (ended : Bool) : SOp Req → Except CErr (Client × List Req × Bool)
   | .message m e =>
     -- `if not self._send_request_done: await self.send_request()`
     if !csOf cl.card && cl.msgDone then .error .protocol          -- 'Message was already sent'
     else if cl.endDone then .error .protocol                       -- 'Stream is ended'
-    else
-      match upPush u m (e || !csOf cl.card) with                   -- unary request: END_STREAM forced
-      | .error x => .error x
-      | .ok u' => .ok ({ cl with reqDone := true, msgDone := true, endDone := e }, u')
+    else if ended then .error .closed                              -- (h2) a frame after END_STREAM
+    else .ok ({ cl with reqDone := true, msgDone := true, endDone := e }, [m], e || !csOf cl.card)
+                                                                   -- unary request: END_STREAM forced
   | .endStream =>
     if !cl.reqDone then .error .protocol                           -- 'Request was not sent'
     else if cl.endDone then .error .protocol                       -- 'Stream was already ended'
     else if !csOf cl.card then
-      (if !cl.msgDone then .error .protocol else .ok ({ cl with endDone := true }, u))
-    else
-      match upEnd u with
-      | .error x => .error x
-      | .ok u' => .ok ({ cl with endDone := true }, u')
+      (if !cl.msgDone then .error .protocol else .ok ({ cl with endDone := true }, [], ended))
+    else if ended then .error .closed
+    else .ok ({ cl with endDone := true }, [], true)
+
+def sendOp {Req : Type} (cl : Client) (u : Up Req) (o : SOp Req) : Except CErr (Client × Up Req) :=
+  match sendEff cl u.ended o with
+  | .ok (cl', push, e') => .ok (cl', ⟨u.msgs ++ push, e'⟩)
+  | .error x => .error x
 
 /-- the check of `recv_trailing_metadata`: explicit end, or implicit end of a unary request -/
 def endedOk (cl : Client) : Bool := cl.endDone || (!csOf cl.card && cl.msgDone)
